@@ -641,7 +641,8 @@ void UnicodePrinter::bvisit(const Function &x)
 void UnicodePrinter::bvisit(const FunctionSymbol &x)
 {
     StringBox box(x.get_name());
-    StringBox args;
+    // one (empty) line, so that a function without arguments prints as "f()"
+    StringBox args("");
     StringBox comma(", ");
     bool first = true;
     for (auto arg : x.get_args()) {
